@@ -164,6 +164,14 @@ CHECKS = {
         "location lookup, actor failures and deadlocks (wait-for among cooperative locks).",
         "Explores bounded scenarios and a preemption bound: finds races, cannot prove their absence; single bytecodes assumed atomic (GIL); deterministic after a per-process tracing warm-up.",
     ),
+    "C16": (
+        "schedule fuzzing with the owned bytecode-level scheduler plus a linearizability checker (memoised exhaustive search over sequential orders) against a reference store",
+        "2..4 actors issue IF.LDM.3 / IF.LDM.4 calls, maintenance and attendance passes on the real dictionary-backed LDM while the scheduler "
+        "decides at every preemption point inside the LDM modules who continues (hypothesis-generated sparse/dense schedules over drawn scenarios "
+        "and every single-preemption schedule of fixed scenarios); the recorded responses and the final store and registries must be "
+        "explainable by a sequential order consistent with real-time precedence; identifiers unique; no actor raises; no deadlock.",
+        "Bounded scenarios (<= 16 calls) and preemption bound; sequential specification = C12 reference map without expiry; update/delete not gated by registration in the specification (C12 findings).",
+    ),
 }
 
 NOT_APPLICABLE = {
